@@ -38,7 +38,22 @@ class Concrete(object):
             return 0
         return 2 if d.command_set_received else 1
 
-    def rx(self, tok, will_reach_decoder):
+    def segment(self, toks):
+        """the bytes of one delivered segment, decided when the provider reads it: the P-DATA tokens are made to mean to the
+        DIMSE decoder what the model says (`pdataMore` leaves its message incomplete, `pdataDone` completes it), given what
+        the decoder holds at that moment and what the earlier tokens of the same segment will have done to it"""
+        reach = self.p.state in (6, 7)
+        ph = self.phase() if reach else 0
+        out = b''
+        for tok in toks:
+            out += self.rx(tok, reach, ph)
+            if tok == 'pdataMore':
+                ph = {0: 1, 1: 2, 2: 2}[ph]
+            elif tok in ('pdataDone', 'pdataErr'):
+                ph = 0
+        return out
+
+    def rx(self, tok, will_reach_decoder, ph=None):
         P = pdu.PresentationDataValueItem
         if tok == 'rq':
             return scen.rq_pdu().encode()
@@ -62,7 +77,8 @@ class Concrete(object):
             self.k += 1
             bad = [P(3, b''), P(3, b'\x07abc'), P(3, b'\x03\x01\x02\x03')][self.k % 3]      # empty PDV / bad header / bad command set
             return pdu.PDataTfPDU([bad]).encode()
-        ph = self.phase() if will_reach_decoder else 0
+        if ph is None:
+            ph = self.phase() if will_reach_decoder else 0
         if tok == 'pdataDone':
             if ph == 0:
                 return scen.wire(scen.echo_rq(4), 1, 16384)[0]
@@ -166,11 +182,7 @@ def run_ticks(role, ticks, artim=ARTIM):
                 conc.k += 1
                 sock.feed(pdu.AReleaseRqPDU().encode()[:(1, 5, 6, 7, 9)[conc.k % 5]])
             else:
-                reach = p.state in (6, 7) and not p.raw_pdu and not p.event
-                seg = b''
-                for i, tok in enumerate(d['n'].split('+')):
-                    seg += conc.rx(tok, reach and i == 0)
-                sock.feed(seg)
+                sock.feed(lambda toks=d['n'].split('+'): conc.segment(toks))
         if sock is not None:
             sock.fail_send = d['f'] == '1'
         state_before = p.state
